@@ -96,6 +96,41 @@ fn decimal_literal_len(s: &str) -> usize {
     end
 }
 
+/// The double nearest to a hexadecimal, octal or binary digit string.
+///
+/// The radix is a power of two, so the digits spell out the binary expansion
+/// of the value. The leading 64 significant bits are kept exactly, together
+/// with whether anything non-zero follows them, which is all that rounding
+/// once to nearest (ties to even) needs, however long the literal is.
+fn radix_digits_to_f64(digits: &[u32], radix: u32) -> f64 {
+    let bits_per_digit = radix.trailing_zeros();
+    let mut leading: u64 = 0;
+    let mut dropped_bits: i32 = 0;
+    let mut dropped_nonzero = false;
+    for digit in digits {
+        for shift in (0..bits_per_digit).rev() {
+            let bit = u64::from((digit >> shift) & 1);
+            if leading >> 63 == 0 {
+                leading = (leading << 1) | bit;
+            } else {
+                dropped_bits += 1;
+                dropped_nonzero |= bit == 1;
+            }
+        }
+    }
+    if dropped_bits == 0 {
+        // the integer conversion rounds to nearest, ties to even
+        return leading as f64;
+    }
+    let mut mantissa = leading >> 11;
+    let remainder = leading & 0x7ff;
+    let half = 0x400;
+    if remainder > half || (remainder == half && (dropped_nonzero || mantissa & 1 == 1)) {
+        mantissa += 1;
+    }
+    (mantissa as f64) * 2f64.powi(11 + dropped_bits)
+}
+
 /// Convert a string to a number the way JavaScript's `Number(string)` does,
 /// returning None where that would return NaN.
 pub fn str_to_number<S: AsRef<str>>(string: S) -> Option<f64> {
@@ -112,22 +147,11 @@ pub fn str_to_number<S: AsRef<str>>(string: S) -> Option<f64> {
             _ => None,
         };
         if let Some(radix) = radix {
-            // Accumulate exactly for as long as the value fits, so that the
-            // conversion to a double is rounded only once.
             let digits = s[2..]
                 .chars()
                 .map(|c| c.to_digit(radix))
                 .collect::<Option<Vec<u32>>>()?;
-            let exact = digits.iter().fold(Some(0u128), |acc, digit| {
-                acc?.checked_mul(u128::from(radix))?
-                    .checked_add(u128::from(*digit))
-            });
-            return Some(match exact {
-                Some(total) => total as f64,
-                None => digits.iter().fold(0.0, |total, digit| {
-                    total * f64::from(radix) + f64::from(*digit)
-                }),
-            });
+            return Some(radix_digits_to_f64(&digits, radix));
         }
     }
     let (sign, unsigned) = match s.as_bytes()[0] {
